@@ -10,6 +10,7 @@
 //	wkb  x<hex>             wkb.Decode(bytes)
 //	wkbr <k> x<hex>         wkb.Read(reader that returns at most k bytes per call, not a bytes.Buffer)
 //	wkbs <E|D|U|C|X>[z] <k> x<hex>  wkb.Read(scripted reader: pieces, empty reads, then a sticky error; see scriptReader)
+//	wkbn <C|E|U> <ev>...    wkb.Read(eventReader: errors that are NOT sticky; ev = d|c|e|u + hex; see gen_wkb.go)
 //	hex  s<hex>             hex.Decode(string(bytes))
 //	json x<hex>             geojson.Decode(bytes)
 //	gj   <T> <goval>        geojson.FromGeoJSON(&Geometry{Type, Coordinates}); T = s<hex> | NILPTR
@@ -57,6 +58,8 @@ func errClass(err error) string {
 	switch {
 	case err == io.EOF || err == io.ErrUnexpectedEOF:
 		return "eof"
+	case err == errUEOF:
+		return "ueof"
 	case errors.As(err, &ue):
 		return "unexpected"
 	case errors.As(err, &ie):
@@ -118,6 +121,50 @@ type scriptReader struct {
 }
 
 var errReader = errors.New("c07: the reader failed")
+
+// errUEOF stands for io.ErrUnexpectedEOF on wkbn lines, where the model predicts WHICH of the two
+// end-of-input values io.ReadFull returns (everywhere else they are one class, as in C05)
+var errUEOF = errors.New("c07: io.ErrUnexpectedEOF")
+
+// eventReader plays a script: every Read call hands out (a part of) the data of the next event; the
+// call that hands out the event's last byte also returns the event's error; an event without data is
+// an empty read (0, nil) or an error alone (0, err). After the script: (0, fin) for ever.
+type event struct {
+	data []byte
+	err  error
+}
+type eventReader struct {
+	evs []event
+	fin error
+}
+
+func (r *eventReader) Read(p []byte) (int, error) {
+	if len(r.evs) == 0 {
+		return 0, r.fin
+	}
+	e := &r.evs[0]
+	if len(e.data) <= len(p) {
+		n := copy(p, e.data)
+		err := e.err
+		r.evs = r.evs[1:]
+		return n, err
+	}
+	n := copy(p, e.data[:len(p)])
+	e.data = e.data[len(p):]
+	return n, nil
+}
+
+func readerErr(c byte) error {
+	switch c {
+	case 'c', 'C':
+		return errReader
+	case 'e', 'E':
+		return io.EOF
+	case 'u', 'U':
+		return io.ErrUnexpectedEOF
+	}
+	return nil
+}
 
 func (s *scriptReader) fail() error {
 	switch s.end {
@@ -208,6 +255,18 @@ func runCase(line string) (res string) {
 		buf := mustHex(p.Next()[1:])
 		rd := &scriptReader{b: buf, k: k, end: mode[0], zero: strings.HasSuffix(mode, "z")}
 		call = func() (geom.Geom, error) { return wkb.Read(rd) }
+	case "wkbn":
+		rd := &eventReader{fin: readerErr(p.Next()[0])}
+		for _, t := range strings.Fields(line)[2:] {
+			rd.evs = append(rd.evs, event{data: mustHex(t[1:]), err: readerErr(t[0])})
+		}
+		call = func() (geom.Geom, error) {
+			g, err := wkb.Read(rd)
+			if err == io.ErrUnexpectedEOF {
+				err = errUEOF
+			}
+			return g, err
+		}
 	case "hex":
 		s := string(mustHex(p.Next()[1:]))
 		call = func() (geom.Geom, error) { return ghex.Decode(s) }
@@ -294,6 +353,8 @@ func worker() {
 		"wkbr 3 x000000000200000001" + "3ff00000000000004000000000000000",
 		"wkbs Xz 3 x000000000200000001" + "3ff00000000000004000000000000000",
 		"wkbs C 2 x0000000002000000",
+		"wkbn C d01 c01000000 d000000000000f03f d0000000000000040",
+		"wkbn E d0102 e000000 d00",
 		"hex s3031303130303030303030303030303030303030663033663030303030303030303030303030343020",
 		"json x7b2274797065223a224d756c7469506f6c79676f6e222c22636f6f7264696e61746573223a5b5b5b5b312c325d5d5d5d2c2278223a7b2261223a6e756c6c7d7d",
 		"json x7b2274797065223a22506f696e74222c22636f6f7264696e61746573223a5b312c5d7d",
